@@ -10,6 +10,7 @@ CONSTANTS
   Eons <- cEons
   MaxDepth = 4
   Emit = FALSE
+  TagMode = "none"
 SPECIFICATION Spec
 PROPERTY StepProps
 VIEW PropView
